@@ -35,6 +35,13 @@ from .values import (
 )
 
 
+# spec builtins that are *lemma schemas*: valid facts about strings / numerals / CPython builtins, instantiated by
+# ``hints``; their truth is sampled against CPython by tools/crosscheck.py on every run (tested, not proved)
+LEMMA_SCHEMAS = {"strip_padded", "int_padded", "strip_core", "strip_blank", "strip_unique", "index_at", "cut_at", "head_of",
+                 "excludes", "int_of_signed", "int_of_digits", "substr_at", "char_at", "chars_at", "nat_shift", "leading_zeros",
+                 "digits_only", "digit_chars", "split_first", "last_of", "strip_noop", "find_in", "rfind_in"}
+
+
 class Loop:
     """Invariant / variant of the n-th loop (source order) of a function."""
 
@@ -79,6 +86,7 @@ class Contract:
         call_ensures=None,
         call_default=False,
         call_variants=None,
+        assumes=(),
     ):
         self.func = func
         self.key = func + (f"#{variant}" if variant else "")
@@ -108,6 +116,12 @@ class Contract:
         self.call_default = call_default  # among variants, the contract used at call sites
         self.call_ensures = call_ensures  # what callers may assume instead of ``ensures`` (an abstraction of it)
         self.hints = list(hints)  # instances of trusted builtin-model facts, assumed (listed in evidence)
+        for h in self.hints:
+            t = ast.parse(h, mode="eval").body
+            if not (isinstance(t, ast.Call) and isinstance(t.func, ast.Name) and t.func.id in LEMMA_SCHEMAS):
+                raise ValueError(f"{self.key}: hint {h!r} is not an instance of a lemma schema {sorted(LEMMA_SCHEMAS)}; "
+                                 "free-form facts go to 'lemmas' (proved) or 'assumes' (reported as assumptions)")
+        self.assumes = list(assumes)  # free-form assumptions about collaborators: assumed, reported in the evidence
         self.ghost = dict(ghost or {})  # extra universally quantified symbols usable in clauses
         self.inline_calls = inline_calls  # verified against its contract, but inlined at call sites
 
@@ -468,7 +482,7 @@ def _sb_digit_chars(ex, st, args, kwargs):
         raise Unsupported("digit_chars needs a literal width 1..9")
     t = bm.sstr(d)
     cs = [z3.SubString(t, i, 1) for i in range(n)]
-    facts = [z3.InRe(c, bm.RE_DIGIT) for c in cs] + [z3.Length(c) == 1 for c in cs]
+    facts = [z3.InRe(c, bm.RE_DIGIT) for c in cs] + [z3.Length(c) == 1 for c in cs] + [z3.Not(z3.InRe(c, bm.RE_WS)) for c in (cs[0], cs[-1])]
     facts.append(t == (z3.Concat(*cs) if n > 1 else cs[0]))
     yield st, SV("bool", z3.Implies(z3.And(z3.InRe(t, bm.RE_DIGITS), z3.Length(t) == n), z3.And(facts)))
 
@@ -482,6 +496,69 @@ def _sb_chars_at(ex, st, args, kwargs):
     whole = bm.sstr(bm.str_concat([a, tok, b]))
     facts = [z3.SubString(S, z3.Length(A) + i, 1) == z3.SubString(T, i, 1) for i in range(n)]
     yield st, SV("bool", z3.Implies(z3.And(S == whole, z3.Length(T) == n), z3.And(facts)))
+
+
+def _sb_split_first(ex, st, args, kwargs):
+    """split_first(s): s == s[0:1] + s[1:] (and s[0:1] has at most one character)."""
+    (s,) = args
+    t = bm.sstr(s)
+    n = z3.Length(t)
+    first = z3.SubString(t, 0, z3.If(n < 1, n, z3.IntVal(1)))
+    alt = z3.SubString(t, 0, 1)
+    yield st, SV("bool", z3.And(t == z3.Concat(bm.sstr(bm.str_slice(s, 0, 1, st)), bm.sstr(bm.str_slice(s, 1, None, st))),
+                                first == alt, z3.Length(alt) <= 1, z3.Implies(n > 0, z3.Length(alt) == 1)))
+
+
+def _sb_last_of(ex, st, args, kwargs):
+    """last_of(pre, a): a is non-empty  =>  the last character of pre + a is the last character of a."""
+    pre, a = args
+    A = bm.sstr(a)
+    S = bm.sstr(bm.str_concat([pre, a]))
+    yield st, SV("bool", z3.Implies(z3.Length(A) > 0, z3.And(z3.SubString(S, z3.Length(S) - 1, 1) == z3.SubString(A, z3.Length(A) - 1, 1),
+                                                             z3.Length(S) > 0)))
+
+
+def _sb_strip_noop(ex, st, args, kwargs):
+    """strip_noop(c): c is non-empty and neither its first nor its last character is whitespace  =>  c.strip() == c."""
+    (c,) = args
+    C = bm.sstr(bm.str_concat([c]))
+    first, last = z3.SubString(C, 0, 1), z3.SubString(C, z3.Length(C) - 1, 1)
+    ws = bm.RE_WS
+    yield st, SV("bool", z3.Implies(z3.And(z3.Length(C) > 0, z3.Not(z3.InRe(first, ws)), z3.Not(z3.InRe(last, ws))),
+                                    bm.strip_term(C) == C))
+
+
+def _find_in(args, last):
+    ch, pieces = args[0], list(args[1:])
+    if is_sym(ch) or len(ch) != 1 or not pieces:
+        raise Unsupported("find_in/rfind_in need a literal one-character needle and at least one piece")
+    c = z3.StringVal(ch)
+    S = bm.sstr(bm.str_concat(pieces))
+    terms = [bm.sstr(p) for p in pieces]
+    op = (lambda t: z3.LastIndexOf(t, c)) if last else (lambda t: z3.IndexOf(t, c, 0))
+    offs, acc = [], z3.IntVal(0)
+    for t in terms:
+        offs.append(acc)
+        acc = acc + z3.Length(t)
+    order = list(range(len(terms)))
+    if not last:
+        order.reverse()
+    res = z3.IntVal(-1)
+    for j in order:  # innermost = the piece looked at last
+        res = z3.If(op(terms[j]) >= 0, offs[j] + op(terms[j]), res)
+    return z3.And(op(S) == res, z3.Length(S) == acc)
+
+
+def _sb_find_in(ex, st, args, kwargs):
+    """find_in(ch, p1, ..., pn): (p1+...+pn).find(ch) is the offset of the first piece containing the character
+    ch plus its position in that piece, or -1."""
+    yield st, SV("bool", _find_in(args, False))
+
+
+def _sb_rfind_in(ex, st, args, kwargs):
+    """rfind_in(ch, p1, ..., pn): (p1+...+pn).rfind(ch) is the offset of the last piece containing ch plus its
+    last position in that piece, or -1."""
+    yield st, SV("bool", _find_in(args, True))
 
 
 def _sb_digits_only(ex, st, args, kwargs):
@@ -647,7 +724,7 @@ def _sb_py_int_strip(ex, st, args, kwargs):
     yield st, (SV("str", bm.strip_term(bm.sstr(s), "int")) if is_sym(s) else s.strip(" \t\n\x0b\x0c\r"))
 
 
-SPEC_BUILTINS = {"chars_at": _sb_chars_at, "digit_chars": _sb_digit_chars, "leading_zeros": _sb_leading_zeros, "digits_only": _sb_digits_only, "head_of": _sb_head_of, "py_int": _sb_py_int, "py_int_ok": _sb_py_int_ok, "nat_shift": _sb_nat_shift, "char_at": _sb_char_at, "int_of_digits": _sb_int_of_digits, "substr_at": _sb_substr_at, "strip_core": _sb_strip_core, "cut_at": _sb_cut_at, "excludes": _sb_excludes, "int_padded": _sb_int_padded, "py_int_strip": _sb_py_int_strip, "py_repr": _sb_py_repr, "loops_exhausted": _sb_loops_exhausted, "call_kwarg": _sb_call_kwarg, "some": _sb_some, "index_at": _sb_index_at, "strip_blank": _sb_strip_blank, "pos_of": _sb_pos_of, "call_arg": _sb_call_arg, "unmodified": _sb_unmodified, "uf": _sb_uf, "called": _sb_called, "py_isalpha": _sb_py_isalpha, "py_isdigit": _sb_py_isdigit, "int_of_signed": _sb_int_of_signed, "strip_padded": _sb_strip_padded, "strip_unique": _sb_strip_unique, "py_strip": _sb_py_strip, "pad": _sb_pad, "matches": _sb_matches, "nat": _sb_nat, "key_at": _sb_key_at, "val_at": _sb_val_at,
+SPEC_BUILTINS = {"find_in": _sb_find_in, "rfind_in": _sb_rfind_in, "split_first": _sb_split_first, "last_of": _sb_last_of, "strip_noop": _sb_strip_noop, "chars_at": _sb_chars_at, "digit_chars": _sb_digit_chars, "leading_zeros": _sb_leading_zeros, "digits_only": _sb_digits_only, "head_of": _sb_head_of, "py_int": _sb_py_int, "py_int_ok": _sb_py_int_ok, "nat_shift": _sb_nat_shift, "char_at": _sb_char_at, "int_of_digits": _sb_int_of_digits, "substr_at": _sb_substr_at, "strip_core": _sb_strip_core, "cut_at": _sb_cut_at, "excludes": _sb_excludes, "int_padded": _sb_int_padded, "py_int_strip": _sb_py_int_strip, "py_repr": _sb_py_repr, "loops_exhausted": _sb_loops_exhausted, "call_kwarg": _sb_call_kwarg, "some": _sb_some, "index_at": _sb_index_at, "strip_blank": _sb_strip_blank, "pos_of": _sb_pos_of, "call_arg": _sb_call_arg, "unmodified": _sb_unmodified, "uf": _sb_uf, "called": _sb_called, "py_isalpha": _sb_py_isalpha, "py_isdigit": _sb_py_isdigit, "int_of_signed": _sb_int_of_signed, "strip_padded": _sb_strip_padded, "strip_unique": _sb_strip_unique, "py_strip": _sb_py_strip, "pad": _sb_pad, "matches": _sb_matches, "nat": _sb_nat, "key_at": _sb_key_at, "val_at": _sb_val_at,
                  "same_dict": _sb_same_dict}
 
 
@@ -1491,7 +1568,7 @@ def verify_function(db: ContractDB, c: Contract, case=None) -> FunctionResult:
         r = chk.check()
         ex.obligations.append(Obligation(f"{c.qualname}.requires-satisfiable", "vacuity", [], z3.BoolVal(r != z3.unsat),
                                          info={"clause": " and ".join(c.requires) or "True"}))
-        for h in c.hints:
+        for h in c.hints + c.assumes:
             st.assume(eval_spec(ex, st, h, env, what="hint"))
         # lemmas: valid facts over the parameters, proved on their own and then assumed
         for i, lem in enumerate(c.lemmas):
